@@ -1,12 +1,14 @@
 (* Corr/C15.v — interfeatures / create_introns / create_splice_sites of the implementation against
    the model and against the declarative gap geometry. *)
-From GV Require Export Corr.Import Model.Attrs Model.Inter.
+From GV Require Export Corr.Import Model.Attrs Model.Inter Model.Introns Model.Hier.
 Open Scope Z_scope.
 
 Inductive case :=
 | CInter (c : icfg) (fs : list row) (impl : result (list row)) (inputs_unchanged : bool)
 | CIntrons (merge numeric : bool) (transcripts : list (str * list row))      (* strand, exons by start *)
-           (introns : result (list row)) (sites : result (list row)).
+           (introns : result (list row)) (sites : result (list row))
+| CIntronsDb (feats : list row) (v : via) (merge numeric : bool)           (* the model selects transcripts and exons itself *)
+             (introns : result (list row)) (sites : result (list row)).
 
 Definition rows_eqb (a b : list row) : bool := list_eqb (row_eqb false) a b.
 
@@ -39,12 +41,7 @@ Fixpoint multiset_eqb (a b : list row) : bool :=
 Definition no_bin (r : row) : row :=
   mkRow (r_id r) (r_seqid r) (r_source r) (r_ftype r) (r_start r) (r_end r) (r_score r) (r_strand r) (r_frame r) (r_attrs r) (r_extra r) None.
 
-Fixpoint collect {A} (l : list (result (list A))) : result (list A) :=
-  match l with
-  | [] => Ok []
-  | Ok x :: l' => match collect l' with Ok r => Ok (x ++ r) | Err e => Err e end
-  | Err e :: _ => Err e
-  end.
+Definition EXONs : str := [101;120;111;110]%N.
 
 Definition verdict (c : case) : Z :=
   match c with
@@ -78,4 +75,25 @@ Definition verdict (c : case) : Z :=
           if ok1 && ok2 then V_OK else V_BAD
         end
       else V_OUT
+  | CIntronsDb feats v merge numeric introns sites =>
+      match import_gff call_table SError [] (SList [KAttr IDK]) feats empty_st with
+      | Err _ => V_OUT
+      | Ok st =>
+        if forallb feature_ok (s_rows st) then
+          let cfg := mkICfg (Some [105;110;116;114;111;110]%N) merge numeric [] in
+          let mi := create_introns st v EXONs cfg in
+          let ms := create_splice_sites st v EXONs merge numeric in
+          match mi, ms with
+          | Err EOther, _ | _, Err EOther => V_OUT
+          | _, _ =>
+            let ok1 := match mi, introns with
+                       | Ok m, Ok o => multiset_eqb m o && multiset_eqb (map no_bin m) (map no_bin o)
+                       | Err e, Err e' => err_eqb e e' | _, _ => false end in
+            let ok2 := match ms, sites with
+                       | Ok m, Ok o => multiset_eqb (map no_bin m) (map no_bin o)
+                       | Err e, Err e' => err_eqb e e' | _, _ => false end in
+            if ok1 && ok2 then V_OK else V_BAD
+          end
+        else V_OUT
+      end
   end.
